@@ -318,7 +318,11 @@ impl Clone for Node {
         w.alive.push(true);
         let src = unsafe { &*self.slots.get() };
         let mut slots = empty_slots();
-        for k in 0..K {
+        // `Clone for Node`: a node whose last slot holds a dangling Weak
+        // (`Weak::new()`) clones to a detached node; every other node clones
+        // all its handles (Model/Machine.v: `cloned_slots`)
+        let detached = matches!(&src[K - 1], Slot::Weak(_, -1));
+        for k in 0..(if detached { 0 } else { K }) {
             slots[k] = match &src[k] {
                 Slot::Empty => Slot::Empty,
                 Slot::Strong(rc, i) => Slot::Strong(Rc::clone(rc), *i),
